@@ -92,6 +92,57 @@ fn run(cfg: &RunCfg) -> Report {
         for_each_response(cfg, "c07-responder", n, &mut |req, resp, who, rep| check_response(req, resp, who, rep), &mut rrep);
         rep.merge(rrep);
     }
+    // encode - N changes of the stored EID - encode the same call again on the SAME context: a frame
+    // cache keyed by a wrapping change counter would replay a stale EID. N over 1..600 and the wrap
+    // points of 8/16-bit counters.
+    if !cfg.is_small() {
+        use libmctp::mctp_traits::SMBusMCTPRequestResponse;
+        let mut rng = cfg.rng("c07-cache");
+        let ns_list: Vec<u32> = (1..=600u32).chain([65_535, 65_536, 65_537, 131_072]).collect();
+        for (k, &n) in ns_list.iter().enumerate() {
+            if k as u64 % cfg.nshards as u64 != cfg.shard as u64 {
+                continue;
+            }
+            for form in [Form::RGetEid, Form::RSetEid] {
+                let mut c = Call::random(form, &mut rng, true, 0);
+                c.hist = 0;
+                c.p[0] = 0;
+                let types = [0x7Eu8];
+                let vend = [libmctp::vendor_packets::VendorIDFormat { format: 0, data: 1, numeric_value: 1 }];
+                let ctx = libmctp::smbus::MCTPSMBusContext::new(c.own, &types, &vend);
+                let mut buf = [0u8; 64];
+                let first_eid = c.eid_this;
+                let _ = invoke_on(&ctx, &c, &mut buf, true);
+                // n changes of the response half's EID, each to a different value, ending elsewhere
+                let mut e = first_eid;
+                for _ in 0..n {
+                    e = e.wrapping_add(1 + (rng.byte() % 3));
+                    ctx.get_response().set_eid(e);
+                }
+                if e == first_eid {
+                    e = e.wrapping_add(1);
+                    ctx.get_response().set_eid(e);
+                }
+                let mut c2 = c.clone();
+                c2.eid_this = e;
+                let exp = expected(&c2);
+                let mut out = [0xEEu8; 64];
+                let r = invoke_on(&ctx, &c2, &mut out, false);
+                rep.eval();
+                rep.class("encode-N-changes-encode");
+                if let Ok(Ok(len)) = r {
+                    let body = &out[9..len - 1];
+                    if body != &exp.body[..] {
+                        rep.violation(
+                            &format!("{}:stale-after-eid-changes", form.name()),
+                            || format!("after {} changes of the stored EID (now {:#04x}) the same call yields body {} instead of {}", n, e, crate::json::hex(body), crate::json::hex(&exp.body)),
+                            || format!("cache|{}|{}", n, c2.encode()),
+                        );
+                    }
+                }
+            }
+        }
+    }
     // exhaustive: all 256 stored EIDs x all enum combinations x all completion codes (Set/Get EID)
     if !cfg.is_small() {
         let mut rng = cfg.rng("c07-eids");
